@@ -454,6 +454,10 @@ INVARIANTS = ['ScanEqualsSegments', 'OtherBytesUntouched', 'NoRescan', 'MissingA
 ONCE = ['HeaderHasExactlyKeysSorted', 'PinnedCasesHold']     # do not depend on the template: checked in one small run
 
 
+def _noop(x: int) -> int:
+    return x
+
+
 def mc_cfg(atomsel: T.Iterable[int], confsel: T.Iterable[int], fmtsel: T.Iterable[int], maxlen: int,
            invariants: T.Iterable[str] = tuple(INVARIANTS)) -> str:
     return ('SPECIFICATION Spec\nCONSTANTS\n AtomSel = {%s}\n ConfSel = {%s}\n FmtSel = {%s}\n MaxLen = %d\n%s'
@@ -542,6 +546,9 @@ def _main(chk: Check, base: str) -> None:
     fams = families(quick)
     ffams = file_families(quick)
     # the model-checking runs go on in the background while the same spaces are driven through the implementation
+    # the worker processes are forked NOW, before any thread exists (a fork while another thread holds a lock can hang the child)
+    ex = ProcessPoolExecutor(max_workers=common.NCPU, initializer=_init_worker, initargs=(base,))
+    list(ex.map(_noop, range(common.NCPU * 2)))
     mc_pool = ThreadPoolExecutor(max_workers=2)
     half = max(2, common.NCPU // 2)
     file_mc = {label: mc_pool.submit(run_tlc, SPECS / 'template', 'TemplateFile_MC', cfg_text=file_cfg(bs, es, cs, fs, n),
@@ -558,7 +565,7 @@ def _main(chk: Check, base: str) -> None:
         BATOMS = fspace['batoms']
         if fspace['confs'] != space['confs'] or fspace['encodings'] != [e[0] for e in ENC_NAMES]:
             raise MachineryError('the tables exported by Template_MC and TemplateFile_MC differ')
-        with ProcessPoolExecutor(max_workers=common.NCPU, initializer=_init_worker, initargs=(base,)) as ex:
+        with ex:
             # (A) file level first (bytes in six encodings), then the text families (default encoding); the cases of
             # all families are judged in common batches
             cases: T.List[T.Dict[str, T.Any]] = []
